@@ -4,7 +4,7 @@ CONSTANTS
   DualStackPeers = {"127.0.0.2"}
   Garbage = {}
   Lists = {{"127.0.0.2"}}
-  MaxXff = 1
+  MaxXff = 0
   Uris = {"u1"}
   Conns = {1, 2}
   Dev = {}
